@@ -218,7 +218,9 @@ func (g *Gen) setVal(f *Frame, v ssa.Value, term string) {
 		bound = g.nextBound
 		g.nextBound = ""
 	}
-	g.typeFacts(f.en, Term{n, srt, t}, bound, false)
+	_, isConst := v.(*ssa.Const)
+	_, isBin := v.(*ssa.BinOp)
+	g.typeFacts(f.en, Term{n, srt, t}, bound, !isConst && !isBin)
 }
 
 func (g *Gen) uniq(f *Frame, v ssa.Value) string { return "" }
@@ -232,6 +234,9 @@ func (g *Gen) typeFacts(en string, t Term, bound string, ranges bool) {
 	case *types.Basic:
 		if lo, hi, ok := intRange(u); ok && ranges {
 			g.assume(en, fmt.Sprintf("(and (<= %s %s) (<= %s %s))", lo, t.S, t.S, hi))
+		}
+		if u.Info()&types.IsString != 0 && ranges {
+			g.assume(en, fmt.Sprintf("(<= (str.len %s) 9223372036854775807)", t.S))
 		}
 	case *types.Slice:
 		g.assume(en, fmt.Sprintf("(and (<= 0 (s_off %[1]s)) (<= 0 (s_len %[1]s)) (<= (s_len %[1]s) (s_cap %[1]s)) (<= (+ (s_off %[1]s) (s_cap %[1]s)) 9223372036854775807) (<= 0 (s_ref %[1]s)) (<= (s_ref %[1]s) %[2]s) (=> (= (s_ref %[1]s) 0) (= (s_cap %[1]s) 0)))", t.S, bound))
@@ -501,6 +506,10 @@ func (g *Gen) writeSet(fn *ssa.Function, blocks []*ssa.BasicBlock, seen map[*ssa
 				if !addLoc(i.Addr) {
 					return nil, true
 				}
+			case *ssa.Send:
+				ct := types.Unalias(i.Chan.Type()).Underlying().(*types.Chan)
+				c1, c2 := g.chanComps(ct)
+				comps[c1], comps[c2] = true, true
 			case *ssa.MapUpdate:
 				m := types.Unalias(i.Map.Type()).Underlying().(*types.Map)
 				v, h, l, _, _ := g.mapComps(m)
@@ -588,8 +597,14 @@ func (g *Gen) callWriteSet(cc *ssa.CallCommon, seen map[*ssa.Function]bool) (map
 	case *ssa.MakeClosure:
 		return g.fnWriteSet(v.Fn.(*ssa.Function), seen)
 	}
-	if c := g.funcTypeContract(cc.Value.Type()); c != nil && !c.ModAll && len(c.Modifies) == 0 {
-		return comps, false
+	if c := g.funcTypeContract(cc.Value.Type()); c != nil && !c.ModAll {
+		if len(c.Modifies) == 0 {
+			return comps, false
+		}
+		if cs, ok := g.modifiesComps(nil, c); ok {
+			cs[nowComp] = true
+			return cs, false
+		}
 	}
 	return nil, true
 }
